@@ -36,6 +36,19 @@ def profile(tier):
     }
 
 
+def profile_local(tier):
+    """Several local channels over 2-3 atoms with frequent retargets: a channel's
+    most recent pulse is often NOT the one that conflicts (stale conflicts)."""
+    p = profile(tier)
+    return dict(p, min_ops=8, max_ops=30 if tier == "quick" else 50, fault_pct=0,
+                weights={"declare": 8, "declare_more": 3, "add": 14, "align": 1, "delay": 1,
+                         "phase_shift": 1, "target": 8, "eom": 0},
+                device=gen.device_specs(n_channels=(2, 3), allow_builtin=False, allow_dmm=False,
+                                        chan_kw={"addr": "Local", "eom": False,
+                                                 "bandwidth": [None, 4, 8, 20]}),
+                register=gen.register_specs(n=(2, 3)))
+
+
 def check(case, ctx: Ctx):
     w = history.Walker(case, ctx, {"C03"}).run()
     st_ = w.stats
@@ -53,4 +66,7 @@ CLAUSES = [
     Clause("protocols", check, gen=lambda t: gen.programs(profile(t)),
            budget={"quick": (16, 150), "thorough": (16, 5000)},
            doc="C03.no_delay / no_conflict / minimal / estimate / align per step"),
+    Clause("local_retarget", check, gen=lambda t: gen.programs(profile_local(t)),
+           budget={"quick": (8, 150), "thorough": (16, 3000)},
+           doc="local channels only, frequent retargets (stale conflicts)"),
 ]
